@@ -25,6 +25,7 @@ RULE = ('(a) token soups: multi-line texts of statement keywords, expression tok
         'logical line is deleted; a deleted closing keyword must be reported. Non-trivial: an error whose fault is not at column 1 of line 1 / '
         'an elided long line / a mutant. Distinct by text.')
 RULE += ' Also: lines that hold only the continuation character (inside, before and at the end of input), non-ASCII call names next to the fault, the unmutated generated program must be accepted; coverage-guided atheris (libFuzzer) shards run the same oracle. Round 5: pairs of lines of the same shape and fault, one built from repeating text, one from distinct names, must get the same diagnostic position; digit-like characters that are not decimal digits as right-hand sides.'
+RULE += ' Round 8: start_line_number 0, negative and large as well (the reported line is always start + index of the first physical line of the logical line).'
 RULE += ' Round 7: include-shaped lines with empty / blank / unterminated targets and both spellings in one line.'
 ASSUMPTIONS = [
     'the exact error wording and which of two faults is reported first are not asserted',
@@ -467,7 +468,7 @@ def run_shard(ctx, spec):
         for ix in range(spec['part'], len(grid), spec['parts']):
             kind, ntok, gap, wrap = grid[ix]
             for variant in range(2):
-                case = targeted_case(rnd, kind, ntok, gap, wrap, rnd.choice(['', '    ', '\t']), rnd.randint(0, 5), rnd.choice([1, 7]),
+                case = targeted_case(rnd, kind, ntok, gap, wrap, rnd.choice(['', '    ', '\t']), rnd.randint(0, 5), rnd.choice([1, 7, 0, -3, 1000, 2]),
                                      variant == 1 and rnd.random() < 0.8, rnd.random() < 0.3)
                 try:
                     elided, length = check_targeted(case)
@@ -486,7 +487,7 @@ def run_shard(ctx, spec):
         def prop(seed, size):
             rnd = random.Random(seed)
             text = gen_soup(rnd, size)
-            start = rnd.choice([1, 1, 7])
+            start = rnd.choice([1, 1, 7, 0, -2, 100])
             res = check_any_text(text, start)
             nlines = text.count('\n') + 1
             ctx.case(digest(text + str(start)), res == 'error' or nlines >= 3, ['soup', 'soup:' + res, 'lines>=5' if nlines >= 5 else 'lines<5',
